@@ -1,6 +1,6 @@
 """C07 Every program terminates within a fixed instruction budget."""
 import astq
-from rules import decode
+from rules import decode, jit
 
 LEVEL = 'other'
 TECHNIQUE = 'known-bits abstract interpretation of the branch constant for all 16 shifts + decoder path enumeration (write sets vs last-writer marks) + sibling agreement of the JIT back-ends'
@@ -19,3 +19,5 @@ def run(ctx, R):
     decode.rule_cbr(ctx, R, F)
     decode.rule_lw(ctx, R, F)
     decode.rule_tab_opc(ctx, R, F)
+    jit.rule_lw_sib(ctx, R, 'x86', F)
+    jit.rule_cbr_x86(ctx, R, F)
